@@ -22,6 +22,7 @@ import (
 	"encoding/json"
 	"errors"
 	"fmt"
+	"os"
 	"reflect"
 	"runtime"
 	"strconv"
@@ -320,13 +321,23 @@ func (w *c08World) expect(f, cursor int, buf []*c08RefNotice) []*c08RefNotice {
 }
 
 // maxVisible returns the largest lastRep among the notices visible to f (0 if none): the cursor after any poll.
-func (w *c08World) maxVisible(f int) (m int, filteredOld bool) {
+func (w *c08World) maxVisible(f int) (m int) {
 	for _, n := range w.ref {
 		if c08Visible(f, n) && n.lastRep > m {
 			m = n.lastRep
 		}
 	}
-	return m, false
+	return m
+}
+
+// c08Fingerprint summarises everything notice-related in the state (order-free): polls must not change it.
+func c08Fingerprint(st *State) (h uint64) {
+	h = uint64(len(st.notices))*1000003 + uint64(st.lastNoticeId)*10007 + uint64(st.lastNoticeTimestamp.UnixNano())
+	for _, n := range st.notices {
+		h += uint64(n.lastRepeated.UnixNano())*3 + uint64(n.lastOccurred.UnixNano())*5 + uint64(n.firstOccurred.UnixNano())*7 +
+			uint64(n.occurrences)*11 + uint64(len(n.lastData))*13 + uint64(n.repeatAfter)*17 + uint64(len(n.id))*19
+	}
+	return h
 }
 
 func (w *c08World) describe(got []*Notice) string {
@@ -485,6 +496,7 @@ func (x *c08Explorer) checkNode(w *c08World, hist []c08Add, cur *[c08NFilters][]
 	nontrivial := false
 	w.st.Lock()
 	defer w.st.Unlock()
+	fp0 := c08Fingerprint(w.st)
 	one := func(f, c int, repoll bool) {
 		exp := w.expect(f, c, ebuf[:0])
 		flt := c08MakeFilter(f, w.ts[c])
@@ -544,10 +556,13 @@ func (x *c08Explorer) checkNode(w *c08World, hist []c08Add, cur *[c08NFilters][]
 			}
 		}
 		// a second poll right after a poll (cursor = the last notice just returned) must return nothing
-		m, _ := w.maxVisible(f)
+		m := w.maxVisible(f)
 		if m > 0 {
 			one(f, m, true)
 		}
+	}
+	if c08Fingerprint(w.st) != fp0 {
+		probs = append(probs, c08Problem{"poll-modified-state", "the notices stored in the state changed while clients were only reading (Notices/WaitNotices must be read-only)"})
 	}
 	if count && nontrivial {
 		x.ntNodes++
@@ -558,7 +573,7 @@ func (x *c08Explorer) checkNode(w *c08World, hist []c08Add, cur *[c08NFilters][]
 func c08NextCursors(w *c08World, cur *[c08NFilters][]int) *[c08NFilters][]int {
 	var next [c08NFilters][]int
 	for f := 0; f < c08NFilters; f++ {
-		m, _ := w.maxVisible(f)
+		m := w.maxVisible(f)
 		found := false
 		for _, c := range cur[f] {
 			if c == m {
@@ -1322,18 +1337,21 @@ func TestVerifC08(t *testing.T) {
 	var sb c08SchedBounds
 	if r.Quick() {
 		fams = []c08Family{
-			{Name: "full4", MaxAdds: 4, Owners: full, NTypes: 2, NKeys: 2, RAs: []int{0, 1, 2}, Dts: []int{0, 1, 2}},
-			{Name: "narrow5", MaxAdds: 5, Owners: []int{0, 2}, NTypes: 1, NKeys: 2, RAs: []int{0, 1}, Dts: []int{0, 2}},
 			{Name: "restart3", MaxAdds: 3, Owners: full, NTypes: 2, NKeys: 2, RAs: []int{0, 1, 2}, Dts: []int{0, 1, 2}, Restarts: 1},
+			{Name: "narrow5", MaxAdds: 5, Owners: []int{0, 2}, NTypes: 1, NKeys: 2, RAs: []int{0, 1}, Dts: []int{0, 2}},
+			{Name: "full4", MaxAdds: 4, Owners: full, NTypes: 2, NKeys: 2, RAs: []int{0, 1, 2}, Dts: []int{0, 1, 2}},
 		}
 		wfam = c08Family{Name: "wait3", MaxAdds: 3, Owners: full, NTypes: 2, NKeys: 2, RAs: []int{0, 1}, Dts: []int{0, 2}, WaitOps: true}
 		sb = c08SchedBounds{MaxAdds: 3, Idents: [][3]int{{0, 0, 0}, {2, 0, 0}, {2, 1, 1}}, RAs: []int{0, 1}, Dts: []int{0, 2},
 			Filters: []int{0, 2 * 9, 3 * 9, 2*9 + 2*3, 2}}
 	} else {
 		fams = []c08Family{
+			{Name: "restart4", MaxAdds: 4, Owners: full, NTypes: 2, NKeys: 2, RAs: []int{0, 1}, Dts: []int{0, 2}, Restarts: 1},
+			{Name: "full4", MaxAdds: 4, Owners: full, NTypes: 2, NKeys: 2, RAs: []int{0, 1, 2}, Dts: []int{0, 1, 2}},
+			{Name: "narrow6", MaxAdds: 6, Owners: []int{0, 2}, NTypes: 1, NKeys: 2, RAs: []int{0, 1}, Dts: []int{0, 2}},
+			{Name: "wide5", MaxAdds: 5, Owners: full, NTypes: 2, NKeys: 2, RAs: []int{0, 1, 2}, Dts: []int{0, 2}},
 			{Name: "full5", MaxAdds: 5, Owners: full, NTypes: 2, NKeys: 2, RAs: []int{0, 1, 2}, Dts: []int{0, 1, 2}},
-			{Name: "narrow8", MaxAdds: 8, Owners: []int{0, 2}, NTypes: 1, NKeys: 2, RAs: []int{0, 1}, Dts: []int{0, 2}},
-			{Name: "restart4", MaxAdds: 4, Owners: full, NTypes: 2, NKeys: 2, RAs: []int{0, 1, 2}, Dts: []int{0, 1, 2}, Restarts: 1},
+			{Name: "narrow7", MaxAdds: 7, Owners: []int{0, 2}, NTypes: 1, NKeys: 2, RAs: []int{0, 1}, Dts: []int{0, 2}},
 		}
 		wfam = c08Family{Name: "wait4", MaxAdds: 4, Owners: full, NTypes: 2, NKeys: 2, RAs: []int{0, 1}, Dts: []int{0, 2}, WaitOps: true}
 		sb = c08SchedBounds{MaxAdds: 4, Idents: [][3]int{{0, 0, 0}, {2, 0, 0}, {2, 1, 1}}, RAs: []int{0, 1}, Dts: []int{0, 2},
@@ -1345,7 +1363,14 @@ func TestVerifC08(t *testing.T) {
 	if r.Sharded(16) {
 		r.Finish("sharded")
 	}
+	only := os.Getenv("VERIF_C08_ONLY") // ad-hoc runs: comma separated part names (p2a, p2b, p1_<family>); the run is then marked non-exhaustive
+	if only != "" {
+		r.Cap("only", only)
+	}
 	timed := func(name string, f func()) {
+		if only != "" && !strings.Contains(","+only+",", ","+name+",") {
+			return
+		}
 		if r.NumViolations() >= c08MaxViolations {
 			r.Cap("violations", "stopped before "+name+": enough violations to report")
 			return
@@ -1354,12 +1379,13 @@ func TestVerifC08(t *testing.T) {
 		f()
 		r.Add("worker_ms_"+name, int64(time.Since(t0)/time.Millisecond))
 	}
+	// the largest family of part 1 runs last, so that a time cap (if any) cuts only there
+	x := &c08Explorer{r: r, fam: wfam}
+	timed("p2a", x.run)
+	timed("p2b", func() { c08RunSchedPart(r, sb) })
 	for _, fam := range fams {
 		x := &c08Explorer{r: r, fam: fam}
 		timed("p1_"+fam.Name, x.run)
 	}
-	x := &c08Explorer{r: r, fam: wfam}
-	timed("p2a", x.run)
-	timed("p2b", func() { c08RunSchedPart(r, sb) })
 	r.Finish("part 1: every history of <= N AddNotice calls per family (owner x type x key x repeat-after x clock step, optional state reload) up to type/key symmetry; after every history every one of 36 client filters polls from every cursor it could hold, plus an immediate second poll; part 2a: same with WaitNotices on an already-done context; part 2b: every add sequence x every grouping into lock sections x 1-2 really blocked waiters x entry points. distinct_nontrivial = histories in which some client with a non-zero cursor received a non-empty list while its cursor excluded an older visible notice, plus part-2b executions in which a waiter that had really parked in Cond.Wait was woken by an add")
 }
